@@ -71,29 +71,37 @@ func newClientState(l lane.Lane, client RedisClient, dispatcher *cmdDispatcher) 
 
 	cs.ds, _ = cs.dss.getDb(0, true)
 
+	simBeforeLock(&clientsMu, "clientsMu")
 	clientsMu.Lock()
+	defer simAfterUnlock(&clientsMu, "clientsMu")
 	defer clientsMu.Unlock()
 	clientId++
 	cs.id = clientId
 	clients[clientId] = cs
 
+	simBeforeLock(&infoMu, "infoMu")
 	infoMu.Lock()
 	info.connected_clients++
 	info.total_connections_received++
 	infoMu.Unlock()
+	simAfterUnlock(&infoMu, "infoMu")
 
 	return cs
 }
 
 func isClientActive() bool {
+	simBeforeLock(&clientsMu, "clientsMu")
 	clientsMu.Lock()
+	defer simAfterUnlock(&clientsMu, "clientsMu")
 	defer clientsMu.Unlock()
 
 	return len(clients) > 0
 }
 
 func processAllClients(op func(id int64, cs *clientState)) {
+	simBeforeLock(&clientsMu, "clientsMu")
 	clientsMu.Lock()
+	defer simAfterUnlock(&clientsMu, "clientsMu")
 	defer clientsMu.Unlock()
 
 	for id, cs := range clients {
@@ -104,11 +112,14 @@ func processAllClients(op func(id int64, cs *clientState)) {
 }
 
 func (cs *clientState) unregister() {
+	simBeforeLock(&clientsMu, "clientsMu")
 	clientsMu.Lock()
+	defer simAfterUnlock(&clientsMu, "clientsMu")
 	defer clientsMu.Unlock()
 
 	delete(clients, cs.id)
 
+	simBeforeLock(&infoMu, "infoMu")
 	infoMu.Lock()
 	info.connected_clients--
 
@@ -116,6 +127,7 @@ func (cs *clientState) unregister() {
 		panic("statistics out of sync with client table")
 	}
 	infoMu.Unlock()
+	simAfterUnlock(&infoMu, "infoMu")
 }
 
 func (cs *clientState) setLock(from, to int32) {
@@ -252,19 +264,25 @@ func (cs *clientState) dispatch(input respValue) (output respValue) {
 }
 
 func (cs *clientState) setMultiInProgress(inProgress bool) {
+	simBeforeLock(&cs.mu, "cs.mu")
 	cs.mu.Lock()
+	defer simAfterUnlock(&cs.mu, "cs.mu")
 	defer cs.mu.Unlock()
 	cs.multiInProgress = inProgress
 }
 
 func (cs *clientState) isMultiInProgress() bool {
+	simBeforeLock(&cs.mu, "cs.mu")
 	cs.mu.Lock()
+	defer simAfterUnlock(&cs.mu, "cs.mu")
 	defer cs.mu.Unlock()
 	return cs.multiInProgress
 }
 
 func (cs *clientState) selectDb(index int, create bool) (priorSelection int, valid bool) {
+	simBeforeLock(&cs.mu, "cs.mu")
 	cs.mu.Lock()
+	defer simAfterUnlock(&cs.mu, "cs.mu")
 	defer cs.mu.Unlock()
 
 	priorSelection = cs.selectedDb
